@@ -37,6 +37,9 @@ def main():
     except ModuleNotFoundError:
         print(f"ANALYSIS-ERROR property={a.prop}: no check module")
         sys.exit(2)
+    except Exception as e:  # noqa: BLE001 - a broken checker is an analysis error, never a verdict
+        print(f"ANALYSIS-ERROR property={a.prop}: the check module cannot be loaded ({type(e).__name__}: {e})")
+        sys.exit(2)
     sys.exit(run_check(a.prop, mod.check, a.tier, a.root, LEVELS.get(a.prop, "other")))
 
 
